@@ -173,6 +173,7 @@ def build_spec(kind: str, mode: str, ctx: Any, tier: str) -> tuple[dict, dict]:
     position = ctx.choose('position', ['first', 'after-bare', 'before-bare', 'between-full'])
     route = ctx.choose('route', ROUTES)
     vrl = ctx.choose('vrl', [8192, 64])
+    rename_set = ctx.choose('rename-set', [None, 'RENAMED-SET'])
     assigned: dict[str, Any] = {}
     units: dict[str, Any] = {}
     for ad in settable(kind):
@@ -238,6 +239,8 @@ def build_spec(kind: str, mode: str, ctx: Any, tier: str) -> tuple[dict, dict]:
                     kw['file_set_number'] = assigned['file_set_number']
     ops.append(S.op_add(kind, 'T', tname, **kw))
     ops.extend(later)
+    if rename_set:
+        ops.append({'op': 'setname', 'h': 'T', 'value': rename_set})
     if position in ('before-bare', 'between-full'):
         kw1 = dict(sname)
         if kind == 'frame':
